@@ -16,6 +16,8 @@ sim::Json generate(const std::string& tier, uint64_t seed, uint64_t index) {
   gen::GenOptions go;
   go.p_nonlinear = 0.65; go.allow_unsupported = false; go.allow_unbounded = rng.chance(0.4);
   go.want_names = rng.chance(0.6); go.max_depth = 3;
+  const bool big = rng.chance(0.012);          // a big model now and then: more than a thousand range rows, each converted on its own
+  if (big) go.extra_ranges = 1050 + (int)rng.below(700);
   gen::Model m = gen::generate(rng, go);
   for (auto& v : m.vars) if (v.lb > v.ub) v.ub = v.lb;
   sim::Json sc = model_scenario(m, true, rng.chance(0.3));
@@ -24,6 +26,7 @@ sim::Json generate(const std::string& tier, uint64_t seed, uint64_t index) {
   if (rng.chance(0.3)) opts.push_back("cvt:names=" + std::to_string(rng.below(4)));
   if (rng.chance(0.75)) { auto a = acc_profile(rng); opts.insert(opts.end(), a.begin(), a.end()); }
   if (rng.chance(0.2)) opts.push_back("cvt:pre:all=0");
+  if (big) { opts.push_back("acc:linrange=0"); sc.set("big", true); }
   opts.push_back("sol:chk:mode=0");
   opts.push_back(std::string(rng.chance(0.5) ? "tech:writegraph" : "writegraph") + "=@/graph.jsonl");
   rng.shuffle(opts);
@@ -35,7 +38,10 @@ sim::Json generate(const std::string& tier, uint64_t seed, uint64_t index) {
     std::string old = "{\"COMMENT\": \"STALE_EXPORT of an earlier run\"}\n{\"VAR_index\": 0, \"bounds\": [0, 7], \"type\": 0, \"is_from_nl\": 1}\n"
                       "{\"VAR_index\": 1, \"bounds\": [0, 8], \"type\": 1, \"is_from_nl\": 1}\n{\"CON_TYPE\": \"_linle\", \"index\": 0, \"depth\": 0, \"data\": {\"body\": {\"coefs\": [1], \"vars\": [0]}, \"rhs_or_range\": [7]}}\n";
     if (rng.chance(0.3)) old += "{\"VAR_index\": 2, \"bou";
-    sc.ref("files").set("graph.jsonl", old);
+    if (rng.chance(0.35)) {      // the name given to the option is a symbolic link to the earlier export ("latest.jsonl -> archive/...")
+      sc.ref("files").set("archive-001.jsonl", old);
+      sim::Json ln = sim::Json::object(); ln.set("graph.jsonl", "archive-001.jsonl"); sc.set("symlinks", ln);
+    } else sc.ref("files").set("graph.jsonl", old);
     sc.set("stale_graph", true);
   }
   return sc;
@@ -172,6 +178,24 @@ void judge(const sim::Json& sc, const RunRecord& rec, sim::RunResult& r) {
             if (lo < 0 || hi < lo || hi >= sz) flag("LINK_INDEX_OUT_OF_RANGE", nm, "link refers to " + nm + "[" + std::to_string(lo) + ".." + std::to_string(hi) + "] but the class has " + std::to_string(sz) + " items: " + l.dump().substr(0, 160));
           }
         }
+      }
+      // ---- every auxiliary variable and every derived constraint came from somewhere: it is the destination of a link record
+      {
+        std::vector<char> cov(vars.size(), 0);
+        std::map<std::string, std::vector<char>> ccov;
+        for (auto& l : links) if (l["dest_nodes"].is_arr()) for (auto& nd : l["dest_nodes"].arr()) {
+          if (!nd.is_obj() || nd.obj().size() != 1) continue;
+          const std::string& nm = nd.obj()[0].first; const sim::Json& ix = nd.obj()[0].second;
+          long lo, hi;
+          if (ix.is_num()) lo = hi = ix.as_int(); else if (ix.is_arr() && ix.size() == 2) { lo = ix[(size_t)0].as_int(); hi = ix[(size_t)1].as_int(); } else continue;
+          std::vector<char>* tv = nullptr;
+          if (nm == "dest_vars()") tv = &cov; else if (created.count(nm)) { tv = &ccov[nm]; tv->resize((size_t)created[nm].count, 0); }
+          if (tv) for (long q = std::max(0L, lo); q <= hi && q < (long)tv->size(); ++q) (*tv)[(size_t)q] = 1;
+        }
+        long unl = 0, first = -1;
+        for (long j = n; j < (long)cov.size(); ++j) if (!cov[(size_t)j]) { if (first < 0) first = j; ++unl; }
+        if (unl) flag("UNLINKED_ITEM", "aux-var", std::to_string(unl) + " auxiliary variable(s) are the destination of no link record, first: variable " + std::to_string(first) + " (of " + std::to_string(cov.size()) + "; " + std::to_string(links.size()) + " link records)");
+        if (sc["big"].as_bool()) r.stats.set("big_models", 1);
       }
       r.stats.set("graphs_checked", 1);
       r.stats.set("link_records", (long)links.size());
